@@ -225,6 +225,14 @@ def toys():
     x = cl.Variable(shape=(2,), name='x')
     y = cl.Variable(shape=(2,), name='y')
     out.append(('adjacent_soc', cl.Problem(cl.MAX, x[0] + y[0], [cl.vector2norm(x) <= 1, cl.vector2norm(y) <= 2]), 'solved', 3.0, x, [1, 0]))
+    # rows without any Variable: a true statement (0 <= 1) changes nothing, a false one (0 <= -2) makes the problem infeasible
+    x = cl.Variable(shape=(2,), name='x')
+    G = np.array([[1.0, 0.0], [0.0, 0.0], [0.0, 1.0]])
+    out.append(('constant_row_true', cl.Problem(cl.MAX, x[0] + x[1], [G @ x <= np.array([4.0, 1.0, 3.0]), x >= 0]), 'solved', 7.0, x, [4, 3]))
+    x = cl.Variable(shape=(2,), name='x')
+    out.append(('constant_row_false', cl.Problem(cl.MAX, x[0] + x[1], [G @ x <= np.array([4.0, -2.0, 3.0]), x >= 0]), 'solved', -math.inf, x, None))
+    x = cl.Variable(shape=(2,), name='x')
+    out.append(('constant_row_equal', cl.Problem(cl.MIN, x[0] + x[1], [G @ x == np.array([1.0, 0.0, 2.0])]), 'solved', 3.0, x, [1, 2]))
     x = cl.Variable(shape=(1,), name='x')
     t = cl.Variable(shape=(1,), name='t')
     out.append(('exp_epi', cl.Problem(cl.MIN, t[0], [cl.weighted_sum_exp(np.array([1.0]), x) <= t[0], x[0] >= 1]), 'solved', math.e, x, [1]))
